@@ -60,13 +60,31 @@ Definition service_order_ok (name : string) : bool :=
   | None => false
   end.
 
+(* the second graph of a service: the local variables that the goroutines started by its methods share
+   (translator/locals.go; present only if some goroutine writes such a variable) *)
+Definition locals_name (name : string) : string := (name ++ "_locals")%string.
+
+Definition locals_ok (name : string) : bool :=
+  match find (fun '(n, _, _, _, _) => String.eqb n (locals_name name)) services with
+  | Some (_, g, e, sk, sg) => analysis_ok sk sg g e
+  | None => true
+  end.
+
+Definition locals_order_ok (name : string) : bool :=
+  match find (fun '(n, _, _, _, _) => String.eqb n (locals_name name)) services with
+  | Some (_, g, e, _, _) => lock_order_ok g e
+  | None => true
+  end.
+
 (* model and implementation agree: a service the analysis accepts (race free and lock balanced in
    every interleaving, C17_tree_dynamic_race_free_partial) shows no race in its scenario, and if its
-   lock order is consistent too (C17_tree_deadlock_free_partial) no hang either;
+   lock order is consistent too (C17_tree_deadlock_free_partial) no hang either; "accepts" covers both
+   graphs of the service: its fields, and the local variables shared by the goroutines of its methods;
    a scenario naming a service that is not extracted never agrees *)
 Definition agree (c : case) : bool :=
-  implb (service_ok (c_service c)) (negb (c_race c)) &&
-  implb (service_ok (c_service c) && service_order_ok (c_service c)) (negb (c_hang c)) &&
+  implb (service_ok (c_service c) && locals_ok (c_service c)) (negb (c_race c)) &&
+  implb (service_ok (c_service c) && locals_ok (c_service c) &&
+         service_order_ok (c_service c) && locals_order_ok (c_service c)) (negb (c_hang c)) &&
   service_known (c_service c) && answers_agree c.
 
 Definition mismatches (cs : list case) : list N := failing_ids c_id agree cs.
